@@ -39,6 +39,7 @@ pub fn translate(repo: &Path, out: &mut Out) {
             variants: vec![],
             eq: "N.eqb",
             take_default: "(@nil N)",
+            mcalls: vec![],
             display: vec![],
         };
         let state = vec!["self_buffer".to_string(), "self_inner".to_string()];
